@@ -49,7 +49,7 @@ PROBES = {
             'offered_rejected_suffix', 'cross_host_redirect', 'waiver_used', 'retry', 'requests_attributed', 'span_hosts_allow',
             'domains', 'hostnames', 'https_only', 'tries'],
     'C20': ['robots_disallow', 'robots_allow_all', 'robots_404', 'robots_5xx', 'robots_redirect', 'robots_redirect_to_other_origin', 'many_origins', 'robots_with_non_utf8_bytes', 'robots_big', 'robots_netfault', 'tag_options', 'sitemaps_option', 'nofollow_page',
-            'multi_origin', 'concurrency>1', 'agent_specific_group', 'robots_wildcard_rules', 'disallowed_offered'],
+            'multi_origin', 'concurrency>1', 'agent_specific_group', 'robots_wildcard_rules', 'robots_garbled_answer', 'disallowed_offered'],
 }
 _COMMON = {
     'components': {'real': ['wpull.application (Builder, Application, all start-up/shutdown tasks)', 'wpull.pipeline', 'wpull.database (SQLite file on tmpfs)',
